@@ -111,6 +111,12 @@ func (p *c16) Gen(seed uint64, i int, tier string) (any, bool) {
 		if r.Chance(1, 2) {
 			sc.Server.Rules = []refsmtpd.Rule{{Verb: "QUIT", Nth: 1, Action: refsmtpd.Action{Code: 502, Text: "not now"}}}
 		}
+		if r.Chance(1, 3) {
+			// no reply to a line of the exchange (the server hangs up, or answers with something
+			// that is no reply): Auth returns, the caller goes on using the Client
+			sc.Server.Rules = append(sc.Server.Rules, refsmtpd.Rule{Verb: sim.Pick(r, []string{"AUTH", "AUTHRESP", "AUTHRESP"}), Nth: 1 + r.Intn(2),
+				Action: refsmtpd.Action{Kind: sim.Pick(r, []string{"drop", "garbage", "drop"})}})
+		}
 		return sc, true
 	}
 	if i%23 == 21 {
@@ -142,6 +148,10 @@ func (p *c16) Gen(seed uint64, i int, tier string) (any, bool) {
 			b.WriteByte(alpha[r.Intn(len(alpha))])
 		}
 		pass = b.String()
+	}
+	if len(pass)%7 == 3 {
+		// a short secret (six characters: its base64 form is no longer than a command verb)
+		pass = pass[:6]
 	}
 	sc := &C16Scenario{Script: script, Sched: sim.Derive(seed, 16, uint64(i), 1)}
 	sc.Client = ClientCfg{AuthType: mech, User: user, Pass: pass, TLSPolicy: "none", Debug: true, TimeoutMs: 2000,
@@ -422,7 +432,7 @@ func (p *c16) Shrink(scAny any) []any {
 
 func (p *c16) Info() PropInfo {
 	return PropInfo{
-		Rule: "seeded search, round-robin over 14 auth types (incl. a step-counting custom LOGIN mechanism that ignores the more flag) x 18 scripts {235 one, two or three steps early, the transport refuses the client's 2nd/3rd/4th write (the AUTH line and the SASL responses on a plain connection), success (x2), 535 to AUTH / to the 1st/2nd/3rd response, wrong stored password, malformed base64 challenge, unexpected extra challenge, disconnect at AUTH / 1st / 2nd response, silent stall at AUTH / 1st response until the timeout} x LOGIN prompt spellings x {the cancel honoured, answered with an echo of the last response} x logger kind {capturing log.Logger, Stdlog, JSONlog} with high-entropy generated credentials (some with = , blank + / non-ASCII < > \" %; an eighth 400..1100 characters long); every 17th run is the control group with WithLogAuthData on; every 23rd run drives the smtp package directly (Auth refused locally by PLAIN/LOGIN, QUIT not honoured by the server, NOOP and MAIL follow on the same connection and must be logged verbatim); every 23rd run (a third residue) has Auth as the first call on the smtp.Client and, after a refusal, a second Auth with another password on the same Client; every 23rd run (another residue) is late-debug: the smtp package driven directly with debug logging off, and a second task that switches it on at a scheduled virtual instant 0..1.2 ms after the exchange started (before, during or after it; PLAIN, LOGIN, CRAM-MD5, SCRAM-SHA-256, optionally a 535); non-trivial = an AUTH command reached the server; distinct = distinct (auth type, mechanism used, script, logger, control group, outcome)",
+		Rule: "seeded search, round-robin over 14 auth types (incl. a step-counting custom LOGIN mechanism that ignores the more flag) x 18 scripts {235 one, two or three steps early, the transport refuses the client's 2nd/3rd/4th write (the AUTH line and the SASL responses on a plain connection), success (x2), 535 to AUTH / to the 1st/2nd/3rd response, wrong stored password, malformed base64 challenge, unexpected extra challenge, disconnect at AUTH / 1st / 2nd response, silent stall at AUTH / 1st response until the timeout} x LOGIN prompt spellings x {the cancel honoured, answered with an echo of the last response} x logger kind {capturing log.Logger, Stdlog, JSONlog} with high-entropy generated credentials (some with = , blank + / non-ASCII < > \" %; an eighth 400..1100 characters long); every 17th run is the control group with WithLogAuthData on; every 23rd run drives the smtp package directly (Auth refused locally by PLAIN/LOGIN, QUIT not honoured by the server, NOOP and MAIL follow on the same connection and must be logged verbatim); every 23rd run (a third residue) has Auth as the first call on the smtp.Client and, after a refusal, a second Auth with another password on the same Client; every 23rd run (another residue) is late-debug: the smtp package driven directly with debug logging off, and a second task that switches it on at a scheduled virtual instant 0..1.2 ms after the exchange started (before, during or after it; PLAIN, LOGIN, CRAM-MD5, SCRAM-SHA-256, optionally a 535); non-trivial = an AUTH command reached the server; distinct = distinct (auth type, mechanism used, script, logger, control group, outcome); an eighth of the passwords six characters long; in the auth-first-retry runs a third with no reply to a line of the exchange (hang-up or garbage) before the caller goes on using the Client",
 		Assumptions: []string{"searched forms of the secret: raw, base64 (padded and unpadded), base64url, hex (both cases), plus the PLAIN/XOAUTH2 initial responses and the LOGIN password line exactly as the server received them; for JSONlog also every decoded string field",
 			"CRAM-MD5 digests and SCRAM proofs are not required to be absent (they do not carry the password; the statement does not demand it)"},
 		Real:        []string{"go-mail smtp.Client (cmd/Auth redaction window), Client debug-log plumbing, log.Stdlog, log.JSONlog, all SASL mechanisms", "crypto/tls where the mechanism needs it"},
